@@ -150,6 +150,15 @@ Theorem c16_fixed_mismatch : forall chk l lsb bfs fs data k bl c o m,
 Proof. exact fixed_mismatch. Qed.
 Print Assumptions c16_fixed_mismatch.
 
+(* ... and for a fixed-value bit-field in ANY position of the top level of a well-formed definition: whenever decode
+   succeeds, the field holds its fixed value - so a mismatch is never accepted (with c16_results_closed and
+   c16_terminates the outcome is then a DecodeError) *)
+Theorem c16_fixed_values_hold : forall chk fs data v n l p lsb bfs k bl c,
+  wfb fs = true -> Forall (fun o => 0 <= o < 256) data -> decode chk fs data = Ok (v, n) ->
+  In (FBits l p lsb bfs) fs -> get_pres p v = Ok true -> In (BitF (Some k) bl (Some c)) bfs -> lookup k v = Some (VInt c).
+Proof. exact fixed_values_hold. Qed.
+Print Assumptions c16_fixed_values_hold.
+
 (* an integer outside the range of its field anywhere in the definition: EncodeError *)
 Theorem c16_unencodable_int : forall fs e nm n p le sg off mult z,
   proto_ok fs = true -> In (FUint nm (LFix n) p le sg off mult) fs -> (1 <= n)%nat -> get_pres p e = Ok true ->
@@ -197,7 +206,7 @@ Print Assumptions c16_example.
 
 Theorem c16_example_spare_free :
   wfb ex2_def = true /\ spare_free ex2_def = true /\ Forall (fun o => 0 <= o < 256) ex2_bytes /\
-  exists v, decode true ex2_def ex2_bytes = Ok (v, 12%nat) /\ encode ex2_def v = Ok ex2_bytes.
+  decode true ex2_def ex2_bytes = Ok (ex2_val, 12%nat) /\ encode ex2_def ex2_val = Ok ex2_bytes.
 Proof. exact ex2_all. Qed.
 Print Assumptions c16_example_spare_free.
 
